@@ -69,7 +69,7 @@ def bounded(check):
     except ValueError:
         info = {"error": (p.stderr or p.stdout)[-400:]}
     out = dict(name="single pass == one sub-graph at a time == 3-thread pool; sub-graphs partition the components; same digest under 4 hash seeds",
-               level="bounded", bound="every graph of <= %d plain components (none / required / optional per earlier component) x outcomes (value, crash)" % n,
+               level="bounded", bound="every graph of <= %d plain components (none / required / optional per earlier component) x outcomes (value, crash); plus: an edge added between two components of an already evaluated set, every driver against a forced dependency-respecting order" % n,
                result=info, violation=(p.returncode == 1), error=(p.returncode not in (0, 1)))
     if p.returncode == 1:
         os.makedirs(os.path.join(here, "replays"), exist_ok=True)
